@@ -270,7 +270,8 @@ theorem genReadLoop_eq (rows : List ρ) : ∀ (cur : List ρ) (acc : List (List 
   | cons r rs ih =>
     intro cur acc
     simp only [genReadLoop, readGo]
-    by_cases h0 : idx r = 0 <;> cases cur <;> simp [h0, ih]
+    have hc : (0 = idx r) = (idx r = 0) := propext eq_comm
+    by_cases h0 : idx r = 0 <;> cases cur <;> simp [h0, hc, ih]
 
 /-- **Tie T, `read_jet_data`** (grouping) -/
 theorem genRead_eq (rows : List ρ) : genRead idx rows = Jets.read idx rows := by
